@@ -110,6 +110,19 @@ def codes_monitor(case, line):
         want = "0" if e == 0 else "-16" if e in (16, 11) else "abort"
         if line.split()[0] != want:
             return "%s with pthread code %d returned %s, expected %s" % (t[0], e, line, want)
+    if t[0] in ("sw", "st") and line.split()[0] != "abort" and len(line.split()) == 2:
+        # uv_sem_wait / uv_sem_trywait report an acquisition only if the sem_wait / sem_trywait call
+        # they made last succeeded: an interrupted (EINTR) or failed call is not a post
+        pairs = [tuple(int(v) for v in x.split(",")) for x in t[1:]]
+        r, used = line.split()[0], int(line.split()[1])
+        if 1 <= used <= len(pairs):
+            last = pairs[used - 1]
+            fn = "uv_sem_wait" if t[0] == "sw" else "uv_sem_trywait"
+            if r == "0" and last[0] != 0:
+                return ("%s reported the semaphore acquired after %d call(s) of which the last returned %d with errno %d "
+                        "(no call succeeded): a waiter is let through without a post" % (fn, used, last[0], last[1]))
+            if t[0] == "st" and r == "-11" and (last[0] == 0 or last[1] != 11):
+                return "uv_sem_trywait returned UV_EAGAIN although sem_trywait answered %d, errno %d" % last
     if t[0] == "bw":
         e = int(t[1])
         want = "0" if e == 0 else "1" if e == -1 else "abort"
